@@ -21,6 +21,7 @@ type Entry struct {
 	Index   uint64
 	Size    int // len(Data)
 	ExtSize int // len(Extensions)
+	big     *raft.Log
 }
 
 var baseTime = time.Date(2024, 3, 9, 7, 30, 0, 0, time.UTC)
@@ -37,7 +38,13 @@ func fill(b []byte, seed uint64) {
 
 // Log materialises the raft.Log of this entry.
 func (e *Entry) Log() *raft.Log {
+	if e.big != nil {
+		return e.big
+	}
 	l := &raft.Log{Index: e.Index}
+	if e.Size >= 1<<20 {
+		defer func() { e.big = l }()
+	}
 	l.Term = termOf(e.ID)
 	l.Type = typeOf(e.ID)
 	if e.Size > 0 {
@@ -498,22 +505,34 @@ func (or *Oracle) Check(o *Obs, durable bool) string {
 		}
 	}
 	if len(keep) == 0 && or.fresh && len(or.Late) > 0 {
+		late := or.Late
+		if len(late) > 6 {
+			late = late[len(late)-6:]
+		}
+	search:
 		for _, s := range or.Mem {
-			c := s.Clone()
-			applied := false
-			for _, l := range or.Late {
-				if len(l.Entries) > 0 && c.Legal(l) {
+			// every non-empty subset of the failed appends, applied in issue order
+			for mask := 1; mask < 1<<uint(len(late)); mask++ {
+				c := s.Clone()
+				ok := true
+				for i, l := range late {
+					if mask&(1<<uint(i)) == 0 {
+						continue
+					}
+					if len(l.Entries) == 0 || !c.Legal(l) {
+						ok = false
+						break
+					}
 					c.Apply(l)
-					applied = true
 				}
-			}
-			if applied && c.matchLog(o) == "" && c.matchStable(o) == "" {
-				keep = append(keep, c)
-				or.LateApplied++
-				if !durable {
-					or.Disk = append(or.Disk, c.Clone())
+				if ok && c.matchLog(o) == "" && c.matchStable(o) == "" {
+					keep = append(keep, c)
+					or.LateApplied++
+					if !durable {
+						or.Disk = append(or.Disk, c.Clone())
+					}
+					break search
 				}
-				break
 			}
 		}
 	}
